@@ -16,7 +16,11 @@ func (k Keeper) CompleteBatch(ctx sdk.Context, requestContext types.RequestConte
 	requestContext.BatchState = types.BATCHCOMPLETED
 
 	if len(requestContext.ModuleName) != 0 {
+		// the callback may pause, kill or update the context: it sees the completed batch, and
+		// what it does must not be overwritten by the caller's copy afterwards
+		k.SetRequestContext(ctx, requestContextID, requestContext)
 		k.Callback(ctx, requestContextID)
+		requestContext, _ = k.GetRequestContext(ctx, requestContextID)
 	}
 
 	batchState := types.BatchState{
